@@ -103,7 +103,8 @@ contract(Q + 'Controller.modify_controller', 'C16',
          modifies=['*.current_index'],
          ensures={
              'closure': in_range('self'),
-             'circular_mod': 'implies(circular, self.current_index == (old(self.current_index) + step) % len(self.specification_names))',
+             # circ(c, s, n) := (c + s) mod n  (specs/c16_circ.py; transparent here, opaque at call sites)
+             'circular_mod': 'implies(circular, self.current_index == circ(old(self.current_index), step, len(self.specification_names)))',
              'circular_result': 'implies(circular, result == step)',
              'clamped': 'implies(not circular, self.current_index == '
                         'ite(old(self.current_index) + step < 0, 0, '
@@ -240,11 +241,11 @@ def _named(n: str) -> str:
     return f'{_D}[{n}]'
 
 
-def _moved(n: str, sign: str) -> str:
-    """The named controller ends at (index selected by current_config  +/- step) mod size."""
+def _moved(n: str, delta: str) -> str:
+    """The named controller ends at circ(index selected by current_config, delta, size) = (index + delta) mod size."""
     return (f"forall(lambda q: implies(current_config.selections[q].controller == {n}, "
-            f"{_named(n)}.current_index == ({_named(n)}.dict_of_index[current_config.selections[q].selection] {sign}step) "
-            f"% len({_named(n)}.specification_names)), 0, len(current_config.selections))")
+            f"{_named(n)}.current_index == circ({_named(n)}.dict_of_index[current_config.selections[q].selection], {delta}, "
+            f"len({_named(n)}.specification_names))), 0, len(current_config.selections))")
 
 
 def _kept(cond: str) -> str:
@@ -258,8 +259,7 @@ def _nonempty(n: str) -> str:
     return f'implies({n} in {_D}, len({_named(n)}.specification_names) >= 1)'
 
 
-# the decrease is written `+ (-step)` like the code: z3 does not relate (c - s) mod n and (c + (-s)) mod n for symbolic n
-for _name, _sign in (('increased_controller', '+ '), ('decreased_controller', '+ -')):
+for _name, _sign in (('increased_controller', 'step'), ('decreased_controller', '-step')):
     contract(Q + 'CentralController.' + _name, 'C16',
              types={'controller_name': 'str', 'current_config': 'biogeme.configuration.Configuration', 'step': 'int'},
              requires={'named_nonempty': _nonempty('controller_name')},
@@ -275,14 +275,6 @@ for _name, _sign in (('increased_controller', '+ '), ('decreased_controller', '+
              replay=_REPLAY_OPS)
 
 # two_controllers: compass directions; the first controller moves E(+)/W(-), the second N(+)/S(-)
-
-
-def _moved_by(n: str, delta: str) -> str:
-    return (f"forall(lambda q: implies(current_config.selections[q].controller == {n}, "
-            f"{_named(n)}.current_index == ({_named(n)}.dict_of_index[current_config.selections[q].selection] + {delta}) "
-            f"% len({_named(n)}.specification_names)), 0, len(current_config.selections))")
-
-
 contract(Q + 'CentralController.two_controllers', 'C16',
          types={'first_controller_name': 'str', 'second_controller_name': 'str', 'direction': 'str',
                 'current_config': 'biogeme.configuration.Configuration', 'step': 'int'},
@@ -292,31 +284,16 @@ contract(Q + 'CentralController.two_controllers', 'C16',
          may_raise=['BiogemeError'],
          ensures={
              'closure': under_inv(CLOSURE),
-             # one clause per compass half (the code computes the signed step on separate paths)
-             'first_moved_E': under_inv(f"implies(first_controller_name != second_controller_name and direction[1] == 'E', "
-                                        f"{_moved_by('first_controller_name', 'step')})"),
-             'first_moved_W': under_inv(f"implies(first_controller_name != second_controller_name and direction[1] != 'E', "
-                                        f"{_moved_by('first_controller_name', '-step')})"),
-             'second_moved_N': under_inv(f"implies(first_controller_name != second_controller_name and direction[0] == 'N', "
-                                         f"{_moved_by('second_controller_name', 'step')})"),
-             'second_moved_S': under_inv(f"implies(first_controller_name != second_controller_name and direction[0] != 'N', "
-                                         f"{_moved_by('second_controller_name', '-step')})"),
+             # compass: the first controller moves E(+step) / W(-step), the second N(+step) / S(-step)
+             'first_moved': under_inv(f"implies(first_controller_name != second_controller_name, "
+                                      + _moved('first_controller_name', "ite(direction[1] == 'E', step, -step)") + ")"),
+             'second_moved': under_inv(f"implies(first_controller_name != second_controller_name, "
+                                       + _moved('second_controller_name', "ite(direction[0] == 'N', step, -step)") + ")"),
              'others_as_configured': under_inv(_kept('current_config.selections[q].controller != first_controller_name and '
                                                      'current_config.selections[q].controller != second_controller_name')),
              'steps': 'result[1] == step',
          },
          replay=_REPLAY_OPS)
 
-contract(Q + 'CentralController.modify_random_controllers', 'C16',
-         types={'increase': 'bool', 'current_config': 'biogeme.configuration.Configuration', 'step': 'int'},
-         # (one quantified clause: see NOTE-VACUITY) modify_controller divides by the controller size
-         requires={'all_nonempty': f"forall(lambda k: implies(k in {_D}, len({_D}[k].specification_names) >= 1), ty='str')",
-                   'tuple_matches_dict': f'len(self.controllers) == len({_D})'},
-         modifies=['*.current_index'],
-         may_raise=['BiogemeError'],
-         ensures={
-             'closure': under_inv(CLOSURE),
-             'modifications': 'result[1] == ite(step < len(self.controllers), step, len(self.controllers))',
-         },
-         invariants={1: {'clauses': {'closure': under_inv(CLOSURE)}}},
-         replay=_REPLAY_OPS)
+# modify_random_controllers: random.choices over list(dict.keys()) -- the engine does not relate the key list of a
+# dict stored in a field to its domain, so closure of this operator is a bounded native check (operator_cases).
